@@ -5,6 +5,7 @@ import copy as _copy
 import itertools
 import json
 import operator
+import pickle
 import random
 import re
 import warnings
@@ -116,7 +117,9 @@ class ImplHang(Exception):
 class deadline:
     """`with deadline(s):` — raises ImplHang inside the block after s seconds of wall time (SIGALRM; only in the main
     thread of a process, which is where every search of this check runs — pool workers are processes).  The deadlines
-    are >= 100x the time the block takes on a loaded machine; a deadline that fires is reported as a failing input
+    are >= 50x the time the block takes on a loaded machine (a copy / empty-container / kv case: < 0.3 s, deadline 20 s; a
+    boundary case: < 1 s, 60 s; an instance case: < 0.5 s, 30 s; the operator sweep: 1-3 s, 180 s); after the first hang
+    a search stops (circuit breaker) so that the check still ends promptly; a deadline that fires is reported as a failing input
     (key `hang:...`) with a replay, never as an internal error."""
 
     def __init__(self, seconds: int) -> None:
@@ -130,16 +133,33 @@ class deadline:
         import signal
         import threading
         if threading.current_thread() is threading.main_thread() and hasattr(signal, 'SIGALRM'):
+            import time
             self.old = signal.signal(signal.SIGALRM, self._fire)
-            signal.alarm(self.seconds)
+            self.prev = signal.alarm(self.seconds)        # remaining seconds of an enclosing deadline (0: none)
+            self.t0 = time.monotonic()
             self.armed = True
         return self
 
     def __exit__(self, *exc: Any) -> None:
         import signal
         if self.armed:
+            import time
             signal.alarm(0)
             signal.signal(signal.SIGALRM, self.old)
+            if self.prev:
+                signal.alarm(max(1, self.prev - int(time.monotonic() - self.t0)))
+
+
+def phase(ck: Ck, name: str, fn: Any, *args: Any) -> None:
+    """Run one certificate / correspondence phase (they call copy(), export and the operators directly) under a deadline
+    of 900 s (the phases take 2-30 s quick, < 150 s thorough): an implementation call that does not return ends as a failed
+    obligation that the searches (which have per-case deadlines) then explain with a `hang:` input."""
+    try:
+        with deadline(900):
+            fn(ck, *args)
+    except ImplHang as e:
+        ck.obligation(f'phase:{name}', False, f'a call into the implementation (or coqc) did not return: {e}')
+        ck.tie_broken.append(f'phase {name} did not finish')
 
 
 # ------------------------------------------------------------------------------------------------ one copy case
@@ -165,7 +185,7 @@ def run_copy_case(kind: str, case_seed: int, variant: str, n_mut: int, collect: 
     mutation history applied to one side.  Returns a list of problems (dicts with key/what/detail).  An exception
     raised by copy() / export of a generated object, or a call that does not return, is a problem like any other."""
     try:
-        with deadline(120):
+        with deadline(20):
             return _run_copy_case(kind, case_seed, variant, n_mut, collect)
     except ImplHang as e:
         return [{'key': f'hang:{kind}', 'what': f'{kind}.{variant}: copy / export / mutation did not return ({e})', 'detail': []}]
@@ -241,9 +261,16 @@ def _run_copy_case(kind: str, case_seed: int, variant: str, n_mut: int, collect:
     return problems
 
 
+_HANG: Any = None       # multiprocessing.Event shared with the pool workers (fork): set by the first case that hangs
+
+
 def _copy_job(job: tuple) -> tuple[list[dict], int]:
+    if _HANG is not None and _HANG.is_set():
+        return [], 0         # circuit breaker: one hanging case is a failing input; do not wait for a thousand of them
     info: dict = {}
     probs = run_copy_case(job[0], job[1], job[2], job[3], info)
+    if _HANG is not None and any((p.get('key') or '').startswith('hang:') for p in probs):
+        _HANG.set()
     return probs, info.get('size', 0)
 
 
@@ -252,6 +279,11 @@ def _run_copy_cases(jobs: list[tuple]) -> list[tuple[list[dict], int]]:
     in job order (deterministic).  Falls back to the serial loop if no pool can be started."""
     import multiprocessing as mp
     import os
+    global _HANG
+    try:
+        _HANG = mp.get_context('fork').Event()
+    except (OSError, ValueError):
+        _HANG = None
     workers = max(1, min(4, (os.cpu_count() or 2) // 2))
     if workers > 1 and len(jobs) >= 200:
         try:
@@ -259,7 +291,13 @@ def _run_copy_cases(jobs: list[tuple]) -> list[tuple[list[dict], int]]:
                 return pool.map(_copy_job, jobs, chunksize=max(1, len(jobs) // (workers * 8)))
         except (OSError, ValueError):
             pass
-    return [_copy_job(j) for j in jobs]
+    out = []
+    hung = False
+    for j in jobs:
+        res = ([], 0) if hung else _copy_job(j)
+        hung = hung or any((p.get('key') or '').startswith('hang:') for p in res[0])
+        out.append(res)
+    return out
 
 
 def search_copies(ck: Ck) -> None:
@@ -341,7 +379,7 @@ def boundary_values(o: Any, f: str, val: Any) -> list | None:
 
 def run_boundary_case(kind: str, case_seed: int, variant: str) -> list[dict]:
     try:
-        with deadline(300):
+        with deadline(60):
             return _run_boundary_case(kind, case_seed, variant)
     except ImplHang as e:
         return [{'key': f'hang:{kind}', 'what': f'{kind}.{variant} with a boundary value did not return ({e})', 'detail': [], 'n_fields': 0}]
@@ -432,7 +470,7 @@ def run_empty_case(kind: str, case_seed: int, variant: str) -> list[dict]:
     States the original cannot be in (its own export raises) are skipped; a copy() that raises on a state the
     original exports fine is a problem."""
     try:
-        with deadline(120):
+        with deadline(20):
             return _run_empty_case(kind, case_seed, variant)
     except ImplHang as e:
         return [{'key': f'hang:{kind}', 'what': f'{kind}.{variant} with an emptied container did not return ({e})', 'detail': []}]
@@ -530,6 +568,9 @@ def search_empty(ck: Ck) -> None:
         seed = ck.rng.randrange(1 << 30)
         variant = ck.rng.choice(sorted(U.copy_variants(kind)))
         probs = run_empty_case(kind, seed, variant)
+        if any((p.get('key') or '').startswith('hang:') for p in probs):
+            found.setdefault(probs[0]['key'], (probs[0], (kind, seed, variant)))
+            break
         nf = probs[0].get('n_fields', 0) if probs else 0
         ck.count('empty_container_cases')
         ck.count('empty_container_fields', nf)
@@ -551,8 +592,17 @@ def search_boundary(ck: Ck) -> None:
     for i in range(n):
         kind = U.KINDS[i % len(U.KINDS)]
         seed = ck.rng.randrange(1 << 30)
-        variant = ck.rng.choice(sorted(v for v, (_f, c) in U.copy_variants(kind).items() if c))
+        complete = sorted(v for v, (_f, c) in U.copy_variants(kind).items() if c)
+        variant = ck.rng.choice(complete)
         probs = run_boundary_case(kind, seed, variant)
+        if kind == 'Output':       # small objects, four ways of copying them (copy(), copy.copy, copy.deepcopy, pickle): try all
+            for v2 in complete:
+                if v2 != variant:
+                    extra = [dict(p, variant=v2) for p in run_boundary_case(kind, seed, v2) if p.get('key')]
+                    probs = probs + extra
+        if any((p.get('key') or '').startswith('hang:') for p in probs):
+            found.setdefault(probs[0]['key'], (probs[0], (kind, seed, variant)))
+            break
         nf = probs[0].get('n_fields', 0) if probs else 0
         ck.count('boundary_cases')
         ck.count('boundary_field_edits', nf)
@@ -561,7 +611,7 @@ def search_boundary(ck: Ck) -> None:
             ck.seen(('boundary', kind, seed, variant))
         for p in probs:
             if p.get('key'):
-                found.setdefault(p['key'], (p, (kind, seed, variant)))
+                found.setdefault(p['key'], (p, (kind, seed, p.get('variant', variant))))
     for key, (p, (kind, seed, variant)) in sorted(found.items()):
         ck.violation(key, p['what'], {'boundary': True, 'kind': kind, 'case_seed': seed, 'variant': variant, 'detail': p['detail'],
                                       'how': 'checks.c09.run_boundary_case(kind, case_seed, variant)'})
@@ -706,6 +756,8 @@ def cert_rows(ck: Ck, side: dict, eside: dict) -> None:
         'EntityFixup_copy_values': ('EntityFixup', lambda o: U.EntityFixup(o.copy_values())),
         'EntityFixup_copy': ('EntityFixup', lambda o: _copy.copy(o)),
         'EntityFixup_deepcopy': ('EntityFixup', lambda o: _copy.deepcopy(o)),
+        'Keyvalues_deepcopy': ('Keyvalues', lambda o: _copy.deepcopy(o)),
+        'Keyvalues_pickle': ('Keyvalues', lambda o: pickle.loads(pickle.dumps(o))),
     }
     for k in ('Camera', 'Cordon', 'VisGroup', 'Solid', 'UVAxis', 'Side', 'Entity', 'EntityGroup', 'Output', 'Keyvalues'):
         makers[k] = (k, lambda o: o.copy())
@@ -836,6 +888,8 @@ def corr_census_runtime(ck: Ck, side: dict, unfresh: tuple = ()) -> None:
         'EntityFixup_copy_values': ('EntityFixup', lambda o, m: U.EntityFixup(o.copy_values())),
         'EntityFixup_copy': ('EntityFixup', lambda o, m: _copy.copy(o)),
         'EntityFixup_deepcopy': ('EntityFixup', lambda o, m: _copy.deepcopy(o)),
+        'Keyvalues_deepcopy': ('Keyvalues', lambda o, m: _copy.deepcopy(o)),
+        'Keyvalues_pickle': ('Keyvalues', lambda o, m: pickle.loads(pickle.dumps(o))),
     }
     for k in ('Camera', 'Cordon', 'VisGroup', 'Solid', 'UVAxis', 'Side', 'Entity', 'EntityGroup', 'Output', 'Keyvalues'):
         makers[k] = (k, lambda o, m: o.copy())
@@ -917,6 +971,8 @@ def corr_flows_runtime(ck: Ck, side: dict) -> None:
     makers: dict[str, tuple[str, Any]] = {
         'EntityFixup_copy': ('EntityFixup', lambda o: _copy.copy(o)),
         'EntityFixup_deepcopy': ('EntityFixup', lambda o: _copy.deepcopy(o)),
+        'Keyvalues_deepcopy': ('Keyvalues', lambda o: _copy.deepcopy(o)),
+        'Keyvalues_pickle': ('Keyvalues', lambda o: pickle.loads(pickle.dumps(o))),
     }
     for k in ('Camera', 'Cordon', 'VisGroup', 'Solid', 'UVAxis', 'Side', 'Entity', 'EntityGroup', 'Output', 'Keyvalues'):
         makers[k] = (k, lambda o: o.copy())
@@ -1032,7 +1088,7 @@ def operand_expr(x: Any) -> str:
 
 def search_operators(ck: Ck) -> None:
     try:
-        with deadline(600):
+        with deadline(180):
             _search_operators(ck)
     except ImplHang as e:
         ck.violation('hang:operators', f'an operator of math.py did not return ({e})', {'how': 'checks.c09.search_operators'})
@@ -1201,7 +1257,7 @@ def kv_names(kv) -> list[str]:
 
 def run_kv_add(case_seed: int) -> list[dict]:
     try:
-        with deadline(60):
+        with deadline(20):
             return _run_kv_add(case_seed)
     except ImplHang as e:
         return [{'key': 'hang:kv-add', 'what': f'Keyvalues + / += / extend or a mutation after it did not return ({e})', 'detail': []}]
@@ -1287,8 +1343,11 @@ def search_kv_add(ck: Ck) -> None:
     found: dict[str, tuple[dict, int]] = {}
     seeds = [ck.rng.randrange(1 << 30) for _ in range(n)]
     for s in seeds:
-        for p in run_kv_add(s):
+        probs = run_kv_add(s)
+        for p in probs:
             found.setdefault(p['key'], (p, s))
+        if any(p['key'].startswith('hang:') for p in probs):
+            break
         ck.count('kv_add_cases')
         ck.seen(('kvadd', s))
     for key, (p, s) in sorted(found.items()):
@@ -1356,7 +1415,7 @@ Definition model (c : (bool * bool) * (list nat * list nat)) : list nat * list n
 # ------------------------------------------------------------------------------------------------ instancing
 def run_instance_case(case_seed: int) -> list[dict]:
     try:
-        with deadline(120):
+        with deadline(30):
             return _run_instance_case(case_seed)
     except ImplHang as e:
         return [{'key': 'hang:instance-collapse', 'what': f'collapse_one / export / an edit of the target did not return ({e})', 'detail': []}]
@@ -1475,8 +1534,11 @@ def search_instancing(ck: Ck) -> None:
     found: dict[str, tuple[dict, int]] = {}
     for _ in range(n):
         s = ck.rng.randrange(1 << 30)
-        for p in run_instance_case(s):
+        probs = run_instance_case(s)
+        for p in probs:
             found.setdefault(p['key'], (p, s))
+        if any(p['key'].startswith('hang:') for p in probs):
+            break
         ck.count('instance_collapse_cases')
         ck.seen(('inst', s))
     for key, (p, s) in sorted(found.items()):
@@ -1606,14 +1668,15 @@ def run(ck: Ck) -> None:
                 ck.extra['census_sources_of_offending_classes'] = {
                     c: side.get('sources', {}).get(c) for c in side.get('classes', []) if not res.get(f'copy_sources_match:{c}', True)}
         lap('instance_obligations')
-        cert_cases(ck)
-        cert_rows(ck, side, eside)
+        phase(ck, 'cert_cases', cert_cases)
+        phase(ck, 'cert_rows', cert_rows, side, eside)
         lap('certificates')
-        corr_census_runtime(ck, side, tuple(k for k, v in res.items() if k.startswith('copy_fresh_mutables:') and not v))
-        corr_flows_runtime(ck, side)
-        corr_export_reads(ck, side, eside)
-        corr_kv_add(ck, side)
-        corr_op_census(ck, oside)
+        phase(ck, 'census_vs_runtime', corr_census_runtime, side,
+              tuple(k for k, v in res.items() if k.startswith('copy_fresh_mutables:') and not v))
+        phase(ck, 'flows_vs_runtime', corr_flows_runtime, side)
+        phase(ck, 'export_reads_vs_runtime', corr_export_reads, side, eside)
+        phase(ck, 'kv_add', corr_kv_add, side)
+        phase(ck, 'op_census_vs_runtime', corr_op_census, oside)
         lap('correspondences')
     search_copies(ck)
     lap('search_copies')
@@ -1657,6 +1720,8 @@ def run(ck: Ck) -> None:
         ck.explain('instance:all_sources_present')
         ck.explain('instance:all_flows_present')
         ck.explain('instance:all_classes_export_ok')
+    if any_key('hang:'):
+        ck.explain('phase:')
     if any_key('shared-mutable:', 'mutation-visible:'):
         ck.explain('certificate:export_ok')
     if any_key('shared-mutable:', 'mutation-visible:', 'copy-incomplete:'):
